@@ -32,7 +32,9 @@
    strings, and the checks are Section variables [utf8_ok alias_ok agent_ok onion_ok] that decode
    evaluates exactly where the Rust code calls String::from_utf8 / Alias::from_str /
    UserAgent::from_str / OnionAddrV3::from_raw_bytes.  Concrete instances of the first three
-   (used by the correspondence check) follow the section.  No proofs in this file. *)
+   (used by the correspondence check) follow the section.  The Refs codec of wire.rs
+   (<Refs as Encode/Decode>; carried by no message) is modelled in its own section further
+   down.  No proofs in this file. *)
 From HW Require Import lib.Base model.WireVarint gen.ConstsWire.
 Local Open Scope N_scope.
 
@@ -200,6 +202,7 @@ Inductive merr :=
 | XUnknownMessageType (n : N)
 | XUnknownInfoType (n : N)
 | XUnexpectedBytes
+| XInvalidRefName                       (* InvalidRefName: only the Refs codec below *)
 | XOther.                               (* any other wire::Error: never produced by the modelled code *)
 
 Inductive res (A : Type) :=
@@ -562,6 +565,69 @@ Definition agent_valid (s : list N) : bool :=
 Definition onion_tbl (valid : list (list N)) (raw : list N) : bool :=
   existsb (fun v => list_eqb N.eqb v raw) valid.
 
+(* ------------------------------------------------------------------ the Refs codec of wire.rs *)
+(* covers: crates/radicle-node/src/wire.rs::{<Refs as Encode>::encode, <Refs as Decode>::decode}.
+   storage::refs::Refs = BTreeMap<git::RefString, Oid>: modelled as an association list kept
+   sorted by the byte-lexicographic order of the names (RefString derives Ord from String).
+   NOT part of any Message (no message carries Refs / SignedRefs); modelled to answer whether
+   this codec is canonical: it is not (C15_refs_codec_not_canonical). *)
+
+Fixpoint bytes_ltb (a b : list N) : bool :=
+  match a, b with
+  | [], [] => false
+  | [], _ :: _ => true
+  | _ :: _, [] => false
+  | x :: a', y :: b' => if x <? y then true else if y <? x then false else bytes_ltb a' b'
+  end.
+
+Definition refs_map := list (list N * list N).
+
+(* BTreeMap::insert: replaces the value of an existing key *)
+Fixpoint refs_insert (k v : list N) (m : refs_map) : refs_map :=
+  match m with
+  | [] => [(k, v)]
+  | (k', v') :: m' =>
+      if list_eqb N.eqb k k' then (k, v) :: m'
+      else if bytes_ltb k k' then (k, v) :: m
+      else (k', v') :: refs_insert k v m'
+  end.
+
+(* <Refs as Encode>::encode: `self.len().try_into()` (Err above u16::MAX: serialize panics),
+   then name (string) and oid of every entry in key order *)
+Definition enc_refs (m : refs_map) : option (list N) :=
+  if len m <=? 65535
+  then enc_vec (fun kv => obind (enc_str (fst kv)) (fun s => Some (s ++ enc_oid (snd kv)))) m
+  else None.
+
+Section RefsCodec.
+  (* String::from_utf8(..).is_ok(), git::RefString::try_from(..).is_ok() *)
+  Variable utf8_ok ref_ok : list N -> bool.
+
+  Fixpoint dec_refs_n (n : nat) (acc : refs_map) (inp : list N) : res refs_map :=
+    match n with
+    | O => ROk acc inp
+    | S n' =>
+        bind (dec_string utf8_ok inp) (fun name r =>
+          if ref_ok name
+          then bind (dec_oid r) (fun o r' => dec_refs_n n' (refs_insert name o acc) r')
+          else RErr XInvalidRefName)
+    end.
+
+  (* <Refs as Decode>::decode *)
+  Definition dec_refs (inp : list N) : res refs_map :=
+    bind (dec_be 2 inp) (fun l r => dec_refs_n (N.to_nat l) [] r).
+
+  Inductive refs_result := RefsOk (m : refs_map) | RefsErr (e : merr).
+
+  (* wire::deserialize::<Refs> *)
+  Definition decode_refs (bs : list N) : refs_result :=
+    match dec_refs bs with
+    | ROk m [] => RefsOk m
+    | ROk _ (_ :: _) => RefsErr XUnexpectedBytes
+    | RErr e => RefsErr e
+    end.
+End RefsCodec.
+
 (* ------------------------------------------------------------------ boolean equalities *)
 
 Definition bytes_eqb : list N -> list N -> bool := list_eqb N.eqb.
@@ -605,7 +671,8 @@ Definition message_eqb (a b : message) : bool :=
 Definition merr_eqb (a b : merr) : bool :=
   match a, b with
   | XEof, XEof | XUtf8, XUtf8 | XInvalidAlias, XInvalidAlias | XInvalidUserAgent, XInvalidUserAgent
-  | XInvalidOnion, XInvalidOnion | XUnexpectedBytes, XUnexpectedBytes => true
+  | XInvalidOnion, XInvalidOnion | XUnexpectedBytes, XUnexpectedBytes
+  | XInvalidRefName, XInvalidRefName => true
   | XInvalidSize e x, XInvalidSize e' x' => (e =? e') && (x =? x')
   | XInvalidFilterSize x, XInvalidFilterSize y | XInvalidTimestamp x, XInvalidTimestamp y
   | XUnknownAddressType x, XUnknownAddressType y | XUnknownMessageType x, XUnknownMessageType y
@@ -640,12 +707,15 @@ Inductive case :=
                                                      windows of bs accepted by OnionAddrV3::from_raw_bytes *)
 | CStr (kind : N) (s : list N)                    (* 0: String::from_utf8, 1: Alias::from_str, 2: UserAgent::from_str
                                                      (1 and 2 on valid UTF-8 only) *)
+| CRefs (bs : list N) (names : list (list N))     (* wire::deserialize::<Refs>(bs); names = the candidate
+                                                     names of bs accepted by git::RefString::try_from *)
 | CConsts.                                        (* the compiled constants *)
 
 Inductive obs :=
 | OEnc (r : eres)
 | ODec (r : dresult)
 | OStr (b : bool)
+| ORefs (r : refs_result)
 | OConsts (scalars : list N) (filter_sizes : list N) (default_agent : list N).
 
 Definition consts_scalars : list N :=
@@ -658,7 +728,15 @@ Definition run (c : case) : obs :=
   | CEnc m => OEnc (encode_res m)
   | CDec bs onions => ODec (decode utf8_valid alias_valid agent_valid (onion_tbl onions) bs)
   | CStr k s => OStr (match k with 0 => utf8_valid s | 1 => alias_valid s | _ => agent_valid s end)
+  | CRefs bs names => ORefs (decode_refs utf8_valid (onion_tbl names) bs)
   | CConsts => OConsts consts_scalars FILTER_SIZES DEFAULT_AGENT
+  end.
+
+Definition refs_result_eqb (a b : refs_result) : bool :=
+  match a, b with
+  | RefsOk m, RefsOk m' => list_eqb (prod_eqb bytes_eqb bytes_eqb) m m'
+  | RefsErr e, RefsErr e' => merr_eqb e e'
+  | _, _ => false
   end.
 
 Definition obs_eqb (a b : obs) : bool :=
@@ -666,6 +744,7 @@ Definition obs_eqb (a b : obs) : bool :=
   | OEnc x, OEnc y => eres_eqb x y
   | ODec x, ODec y => dresult_eqb x y
   | OStr x, OStr y => Bool.eqb x y
+  | ORefs x, ORefs y => refs_result_eqb x y
   | OConsts s f d, OConsts s' f' d' => bytes_eqb s s' && bytes_eqb f f' && bytes_eqb d d'
   | _, _ => false
   end.
